@@ -24,10 +24,12 @@ Consume ==
      CASE e.ev = "s3.start" ->
             cur' = [bucket |-> SeqSet(e.bucket), zero |-> SeqSet(e.zero), n |-> e.n, v2 |-> e.v2]
        [] e.ev = "s3.page" ->
-            LET req == IF cur.v2 THEN ToReqV2(e.req) ELSE ToReqLegacy(e.req)
-                page == IF cur.v2 THEN PageV2(cur.bucket, req.prefix, req.tok, cur.n) ELSE PageLegacy(cur.bucket, req.marker, cur.n)
-                links == IF cur.v2 THEN LinksV2(req, page, cur.zero) ELSE LinksLegacy(req, page, cur.zero)
-                gotListings == IF cur.v2 THEN {ToReqV2(e.listings[i]) : i \in 1..Len(e.listings)}
+            \* the API version is the request's own: a link the code under test built may lead to a listing of the other version
+            LET rv2 == IF HasKey(e, "v2") THEN e.v2 ELSE cur.v2
+                req == IF rv2 THEN ToReqV2(e.req) ELSE ToReqLegacy(e.req)
+                page == IF rv2 THEN PageV2(cur.bucket, req.prefix, req.tok, cur.n) ELSE PageLegacy(cur.bucket, req.marker, cur.n)
+                links == IF rv2 THEN LinksV2(req, page, cur.zero) ELSE LinksLegacy(req, page, cur.zero)
+                gotListings == IF rv2 THEN {ToReqV2(e.listings[i]) : i \in 1..Len(e.listings)}
                                ELSE {ToReqLegacy(e.listings[i]) : i \in 1..Len(e.listings)}
             IN /\ Check({ToEntry(e.page.entries[i]) : i \in 1..Len(e.page.entries)} = page.entries /\ e.page.truncated = page.truncated, l,
                         "HARNESS: simulated server page differs from the specification")
